@@ -199,7 +199,8 @@ impl SvgElement {
 
         for (key, value) in attrs {
             if key == "class" {
-                for c in value.split(' ') {
+                // (separated by any white space, as wherever else a class list is read)
+                for c in value.split_whitespace() {
                     classes.insert(c.to_string());
                 }
             } else {
